@@ -20,13 +20,20 @@ pub struct Viol {
 }
 
 /// What running one case produced.
-#[derive(Clone, Debug, Default)]
+#[derive(Clone, Debug, Default, Serialize, Deserialize)]
 pub struct CaseReport {
     pub violations: Vec<Viol>,
     pub nontrivial: bool,
     pub hash: u64,
-    pub classes: Vec<&'static str>,
-    pub counters: Vec<(&'static str, u64)>,
+    pub classes: Vec<String>,
+    /// the run was cut short (abort, deadlock, step bound, child death): own oracles may not
+    /// have seen a complete history
+    #[serde(default)]
+    pub aborted: bool,
+    /// per-property non-triviality when one run serves several properties
+    #[serde(default)]
+    pub nontrivial_by: Vec<(String, bool)>,
+    pub counters: Vec<(String, u64)>,
     /// infrastructure trouble (timeouts, fork failures): never a violation
     pub inconclusive: Option<String>,
     /// short human-readable rendering of the realised execution
@@ -93,6 +100,22 @@ pub struct WorkerReport {
     pub extra_evaluations: u64,
 }
 
+impl CaseReport {
+    pub fn class(&mut self, c: &str) {
+        if !self.classes.iter().any(|x| x == c) {
+            self.classes.push(c.to_string());
+        }
+    }
+    pub fn count(&mut self, k: &str, v: u64) {
+        self.counters.push((k.to_string(), v));
+    }
+    pub fn viol(&mut self, key: &str, msg: String) {
+        if !self.violations.iter().any(|v| v.key == key) {
+            self.violations.push(Viol { key: key.to_string(), msg });
+        }
+    }
+}
+
 impl WorkerReport {
     pub fn absorb(&mut self, def: &PropDef, rep: &CaseReport, known: &Known) -> Option<Viol> {
         self.evaluations += 1;
@@ -116,22 +139,28 @@ impl WorkerReport {
                 foreign = true;
             }
         }
-        if foreign && own.is_none() {
+        if foreign && own.is_none() && rep.aborted {
             self.foreign_violations += 1;
             return None;
         }
-        if rep.nontrivial {
+        let nt = rep
+            .nontrivial_by
+            .iter()
+            .find(|(p, _)| p == def.id)
+            .map(|(_, b)| *b)
+            .unwrap_or(rep.nontrivial);
+        if nt {
             self.nontrivial_total += 1;
             self.nontrivial_hashes.insert(rep.hash);
         }
         for c in &rep.classes {
-            *self.classes.entry((*c).to_string()).or_insert(0) += 1;
+            *self.classes.entry(c.clone()).or_insert(0) += 1;
         }
         for (k, v) in &rep.counters {
-            *self.counters.entry((*k).to_string()).or_insert(0) += *v;
+            *self.counters.entry(k.clone()).or_insert(0) += *v;
         }
         if let Some(s) = &rep.sample {
-            if self.samples.len() < 3 && (rep.nontrivial || self.samples.is_empty()) {
+            if self.samples.len() < 3 && (nt || self.samples.is_empty()) {
                 self.samples.push(s.clone());
             }
         }
